@@ -1,8 +1,135 @@
 //! Verification hook (compiled only with `--cfg quinn_rs_quinn_verif`).
+//!
+//! Components: `cc_newreno`, `cc_cubic`, `cc_bbr` — the three built-in congestion controllers,
+//! driven through the public `Controller` trait.
+//!
+//! Ops (trailing arguments beyond the ones listed are ignored: the Coq side uses them to carry
+//! oracle values for float-derived quantities, read back from a first run of this hook):
+//!   [0, initial_window, mtu]                                   build (must be op 0)
+//!   [1, now, bytes, last_pn]                                   on_sent
+//!   [2, now, sent, bytes, app_limited, rtt_us]                 on_ack (rtt: get() = min() = rtt_us)
+//!   [3, now, in_flight, app_limited, has_largest, largest]     on_end_acks
+//!   [4, now, sent, persistent, ecn, lost_bytes]                on_congestion_event
+//!   [5]                                                        on_spurious_congestion_event
+//!   [6, new_mtu]                                               on_mtu_update
+//! Times are microseconds after a per-case base instant.
+//! Observation after every op:
+//!   cc_newreno / cc_cubic: [window(), metrics().ssthresh, initial_window()]
+//!   cc_bbr: `Bbr::verif_state` (see congestion/bbr/mod.rs): [window(), mode, recovery_state, cwnd,
+//!           recovery_window, min_cwnd, init_cwnd, full_bw, bw, min_rtt_us, round_count,
+//!           max_ack_height, target(0.75), target(1.0), target(cwnd_gain), cwnd_gain_is_derived,
+//!           acked_bytes, lost_bytes, max_sent_pn, max_acked_pn, end_recovery_pn, round_end_pn,
+//!           bw_at_last_round, round_wo_bw_gain, exit_probe_rtt_at|-1, probe_rtt_last_started|-1,
+//!           initial_window()]
+//! An op before `build`, or an unknown opcode, yields [-1].
 #![allow(missing_docs, dead_code, unused_imports, unreachable_pub, clippy::all)]
 use super::{Ops, Outs};
+use crate::congestion::{
+    Bbr, BbrConfig, Controller, ControllerFactory, Cubic, CubicConfig, NewReno, NewRenoConfig,
+};
+use crate::connection::RttEstimator;
+use crate::{Duration, Instant};
+use std::sync::Arc;
 
-/// Interpret `ops` for component `comp`; `None` if `comp` is not served by this module.
-pub(crate) fn run(_comp: &str, _ops: &Ops) -> Option<Outs> {
-    None
+enum Cc {
+    Plain(Box<dyn Controller>),
+    Bbr(Bbr),
+}
+
+impl Cc {
+    fn ctl(&mut self) -> &mut dyn Controller {
+        match self {
+            Cc::Plain(c) => &mut **c,
+            Cc::Bbr(b) => b,
+        }
+    }
+    fn obs(&self, base: Instant) -> Vec<i128> {
+        match self {
+            Cc::Plain(c) => {
+                let m = c.metrics();
+                vec![
+                    c.window() as i128,
+                    m.ssthresh.map_or(-1, |x| x as i128),
+                    c.initial_window() as i128,
+                ]
+            }
+            Cc::Bbr(b) => {
+                let mut v = b.verif_state(base);
+                v.push(b.initial_window() as i128);
+                v
+            }
+        }
+    }
+}
+
+fn controllers(kind: &str, ops: &Ops) -> Outs {
+    let base = Instant::now();
+    let at = |t: i128| base + Duration::from_micros(t as u64);
+    let mut cc: Option<Cc> = None;
+    let mut outs = Vec::new();
+    for op in ops {
+        if op[0] == 0 {
+            let iw = op[1] as u64;
+            let mtu = op[2] as u16;
+            cc = Some(match kind {
+                "cc_newreno" => {
+                    let mut cfg = NewRenoConfig::default();
+                    cfg.initial_window(iw);
+                    Cc::Plain(Arc::new(cfg).build(base, mtu))
+                }
+                "cc_cubic" => {
+                    let mut cfg = CubicConfig::default();
+                    cfg.initial_window(iw);
+                    Cc::Plain(Arc::new(cfg).build(base, mtu))
+                }
+                _ => {
+                    let mut cfg = BbrConfig::default();
+                    cfg.initial_window(iw);
+                    Cc::Bbr(Bbr::new(Arc::new(cfg), mtu))
+                }
+            });
+            outs.push(cc.as_ref().unwrap().obs(base));
+            continue;
+        }
+        let Some(c) = cc.as_mut() else {
+            outs.push(vec![-1]);
+            continue;
+        };
+        match op[0] {
+            1 => c.ctl().on_sent(at(op[1]), op[2] as u64, op[3] as u64),
+            2 => {
+                let rtt = RttEstimator::new(Duration::from_micros(op[5] as u64));
+                c.ctl()
+                    .on_ack(at(op[1]), at(op[2]), op[3] as u64, op[4] != 0, &rtt)
+            }
+            3 => c.ctl().on_end_acks(
+                at(op[1]),
+                op[2] as u64,
+                op[3] != 0,
+                if op[4] != 0 { Some(op[5] as u64) } else { None },
+            ),
+            4 => c.ctl().on_congestion_event(
+                at(op[1]),
+                at(op[2]),
+                op[3] != 0,
+                op[4] != 0,
+                op[5] as u64,
+            ),
+            5 => c.ctl().on_spurious_congestion_event(),
+            6 => c.ctl().on_mtu_update(op[1] as u16),
+            _ => {
+                outs.push(vec![-1]);
+                continue;
+            }
+        }
+        outs.push(c.obs(base));
+    }
+    outs
+}
+
+pub(crate) fn run(comp: &str, ops: &Ops) -> Option<Outs> {
+    match comp {
+        "cc_newreno" | "cc_cubic" | "cc_bbr" => Some(controllers(comp, ops)),
+        _ => None,
+    }
 }
